@@ -27,11 +27,9 @@ ASSUMPTIONS = ["run() and cache_clear() are atomic (they execute under _WrapNumb
 EXHAUSTIVE = {"quick": "all 780 sequences of length <=4 over one device, one counter, readings {absent,0,1,2} + cache_clear",
               "thorough": "all 19530 sequences of length <=6 over one device/one counter/readings {absent,0,1,2}+clear, and all 11110 "
                           "sequences of length <=4 over two devices, readings {absent,0,1}+clear"}
-# model parameter: False = code as it is now (empty raw dict returns before the wrap step);
-# True = after notes/fixes/C10-empty-snapshot.diff
-EMPTY_FIX = False
-if os.environ.get("PV_C10_EMPTY_FIX") in ("0", "1"):      # self-test of the proposed repair only
-    EMPTY_FIX = os.environ["PV_C10_EMPTY_FIX"] == "1"
+# model parameter: False = code as it is now (commit e278b23: the wrap step also sees an empty listing);
+# True = the code before that repair (empty raw dict returned before the wrap step)
+LEGACY_EMPTY = False
 SHARD = 120
 
 NET_NAMES = ["lo", "eth0", "wlan0", "eth0:1", "a:b"]
@@ -326,7 +324,7 @@ def _is_pub(case):
 def coq_term(case):
     ops = _ops_of(case)
     if _is_pub(case):
-        return "run_pub %s %s" % (G.bo(EMPTY_FIX), G.lst([_pop(o) for o in ops]))
+        return "run_pub %s %s" % (G.bo(LEGACY_EMPTY), G.lst([_pop(o) for o in ops]))
     ws = G.lst(["(%s, %s)" % (G.by(k), G.nat(v)) for k, v in sorted(case["widths"].items())])
     return "run_wn %s %s" % (ws, G.lst([_wop(o) for o in ops]))
 
@@ -559,8 +557,9 @@ MANIFEST = {
             "per device and counter, raw + the sum of the earlier readings at each decrease inside the device's current presence run since the "
             "last clear (ghost history per name), no call fails; corollaries: monotone for non-negative counters, reappearing device starts "
             "afresh, clear forgets, first call raw, names are independent (frame), nowrap=False is raw and leaves the state alone. For the "
-            "public functions the same holds for every sequence without a nowrap=True call that lists no device at all; for that class the "
-            "theorem is refuted with a witness (finding nowrap-empty-snapshot) and proved for the proposed repair. The model is tied to the code "
+            "public functions (code after the repair e278b23) the same holds for EVERY sequence, including listings with no device at all "
+            "(a device coming back after every device had gone starts afresh); the code before the repair is refuted with a witness "
+            "(fixed finding nowrap-empty-snapshot, replayed from corpus/C10 on every run). The model is tied to the code "
             "by running the real psutil (direct API and public API over generated /proc/net/dev, /proc/diskstats) on generated and exhaustively "
             "enumerated sequences, on two scripted alternating threads and two free-running threads, comparing every answer and cache_info().",
     "note": "Trusted: Coq kernel + vm_compute; hand-written model coq/C10/Model.v (tied by the correspondence run only); the ghost "
